@@ -189,7 +189,7 @@ package eq
 //
 //@ schema N=2..21
 //@ lemma tuple{N}Equiv[<<i=1..N|, |A$i>> any](<<i=1..N|, |e$i fp.Eq[A$i]>>, x fp.Tuple{N}[<<i=1..N|, |A$i>>], y fp.Tuple{N}[<<i=1..N|, |A$i>>], z fp.Tuple{N}[<<i=1..N|, |A$i>>])
-//@   prop C09
+//@   prop C09 C14
 //@   requires <<i=1..N| && |veriflaws.EqLaws(e$i)>>
 //@   ensures Tuple{N}(<<i=1..N|, |e$i>>).Eqv(x, y) == (<<i=1..N| && |e$i.Eqv(x.I$i, y.I$i)>>)
 //@   tag def
